@@ -1,30 +1,27 @@
-"""C10 — a version's canonical string denotes the same version.
-
-Thin driver: every module of harness/props/parts that defines c10(ctx) contributes its system."""
-from props import parts
+"""C10 driver: runs every part module (harness/props/parts/*.py) that defines c10(ctx)."""
+import glob
+import importlib
+import os
+import lib
 
 PROOF_FILE = "C10"
 LEVEL = "proof"
-RULE = ("per system, generated version strings (grammar-directed, exotic and malformed); for every accepted one the Go side reports "
-        "Canon, the re-parse of Canon, Compare(original, re-parsed) and Canon of the re-parsed version; strings with equal Canon are "
-        "compared pairwise; a case is non-trivial when the string is accepted (RubyGems: and release-only)")
+RULE = "see the per-system parts; distinct accepted version strings / pairs are counted as non-trivial"
 TRUSTED = [
-    "Coq 8.16.1 kernel (+vm_compute for refuted witnesses)",
-    "translator gotables; extraction (ExtrOcamlBasic only) + driver.ml; Go harness (H4 dump); python generators and oracle",
+    "Coq 8.16.1 kernel", "hook H4 (semver.VerifDump)", "translator gotables",
+    "extraction (ExtrOcamlBasic only) + driver.ml; Go harness; python generators",
+    "declarative specifications in coq/Spec are transcriptions of the published algorithms",
 ]
-ASSUMPTIONS = [
-    "parser and printer models are tied to the implementation by execution on every generated string (kinds sv_parse, sv_canon)",
-    "Maven and RubyGems: ASCII input (strings.ToLower is modelled on ASCII)",
-]
-MANIFEST = dict(
-    category="proof",
-    text=("Parser and canonical-printer models with theorems C10_reparse / C10_idem / C10_inj per system on the domains stated in "
-          "Properties/C10_*.v (full / partial / refuted with witnesses). Tie: Canon, re-parse, comparison and second Canon computed "
-          "by Go and by the extracted model on every generated string; the three clauses are evaluated directly on the Go outputs."),
-    note=("Trusted: Coq kernel, gotables, extraction+driver, Go harness, generators. Models hand-written, validated by execution."),
-    technique="Rocq proof over parser/printer models + differential correspondence + direct oracle on Go",
-    design="8 C10")
+ASSUMPTIONS = ["hand-written model validated by execution on every run"]
 
 
 def run(ctx):
-    parts.run_all("c10", ctx)
+    here = os.path.dirname(os.path.abspath(__file__))
+    for f in sorted(glob.glob(os.path.join(here, "parts", "*.py"))):
+        name = os.path.basename(f)[:-3]
+        if name.startswith("_"):
+            continue
+        mod = importlib.import_module("props.parts." + name)
+        fn = getattr(mod, "c10", None)
+        if fn:
+            fn(ctx)
